@@ -25,6 +25,37 @@ func (p Path) Render() string {
 	return s
 }
 
+// RenderWin renders the path for a Windows-typed file system (volume C:, backslash separators).
+func (p Path) RenderWin() string {
+	s := strings.Join(p.Parts, "\\")
+	if p.Abs {
+		return "C:\\" + s
+	}
+
+	return s
+}
+
+// ParsePathWin converts a concrete Windows-style path into the abstract form.
+func ParsePathWin(s string) Path {
+	p := Path{Parts: []string{}}
+	if len(s) >= 2 && s[1] == ':' {
+		s = s[2:]
+	}
+
+	if strings.HasPrefix(s, "\\") {
+		p.Abs = true
+		s = s[1:]
+	}
+
+	if s == "" {
+		return p
+	}
+
+	p.Parts = strings.Split(s, "\\")
+
+	return p
+}
+
 // ParsePath converts a concrete clean-ish path string into the abstract form.
 func ParsePath(s string) Path {
 	p := Path{Parts: []string{}}
